@@ -35,6 +35,35 @@ def details(F):
     return rows
 
 
+REF_SIGNALS = {"Term": 15, "Stop": 20, "Ignore": 17}      # SIGTERM, SIGTSTP, SIGCHLD: one reference signal per kernel disposition class
+
+
+def kind_roles(F):
+    """the enum that encodes the default disposition, and which of its variants stands for terminate / stop / ignore — read off the table
+    itself (the variant given to SIGTERM, SIGTSTP, SIGCHLD), so renaming the type or its variants changes nothing"""
+    rows = details(F)
+    by_num = {num: kind for (num, name, kind) in rows}
+    roles = {}
+    for role, num in REF_SIGNALS.items():
+        if num not in by_num:
+            raise AnchorLost("DETAILS has no row for reference signal %d" % num)
+        roles[role] = by_num[num]
+    d = F.adt("signal_hook::low_level::signal_details::Details")
+    enums = []
+    for f in d["variants"][0]["fields"]:
+        t = f["ty"]
+        if t.startswith("signal_hook::low_level::signal_details::"):
+            try:
+                a = F.adt(t)
+            except AnchorLost:
+                continue
+            if len(a["variants"]) > 1:
+                enums.append(a)
+    if len(enums) != 1:
+        raise AnchorLost("the default-disposition enum of Details: %s" % [a["path"] for a in enums])
+    return enums[0], roles
+
+
 def rule_a(ctx):
     F = ctx.F
     rid = "C16.a"
@@ -43,13 +72,16 @@ def rule_a(ctx):
     nums = {r[0]: int(r[1]) for r in _tsv("linux_signal_numbers.tsv")}
     cls = {r[0]: r[1] for r in _tsv("linux_default_dispositions.tsv")}
     rows = details(F)
+    kind_adt, roles = kind_roles(F)
+    ctx.check(len(set(roles.values())) == 3, rid, "kinds:distinct", "terminate / stop / ignore are three different variants of %s (as given to SIGTERM, SIGTSTP, SIGCHLD)" % kind_adt["path"].split("::")[-1],
+              kind_adt["span"], roles)
     seen_num = {}
     for (num, name, kind) in rows:
         key = "DETAILS[%s]" % name
         if name not in nums or name not in cls:
             ctx.bad(rid, key, "signal name %s is not in the oracle for this target (cannot vouch for it)" % name, None, {"number": num}); continue
         ctx.check(nums[name] == num, rid, key + ":number", "%s is %d on this platform" % (name, nums[name]), None, {"table": num, "platform": nums[name]})
-        want = CLASS2KIND[cls[name]]
+        want = roles[CLASS2KIND[cls[name]]]
         ctx.check(kind == want, rid, key + ":kind", "%s default kind %s matches the kernel's class `%s`" % (name, kind, cls[name]), None,
                   {"table_kind": kind, "oracle_kind": want, "oracle_class": cls[name]})
         if num in seen_num and seen_num[num] != (name, kind):
@@ -70,16 +102,17 @@ def rule_b(ctx):
     restorers = [i for i in Cone(F, [m0]).members if i.local and i.body is not None and i.id != m0.id and call_sites(F, i, foreign("sigaction"))]
     m = NF(F, m0, vocab=[re.escape(i.name) + "$" for i in restorers] or None)
     fl = flow(m)
-    kind_adt = F.adt("signal_hook::low_level::signal_details::DefaultKind")
-    vidx = {v["name"]: i for i, v in enumerate(kind_adt["variants"])}
+    kind_adt, roles = kind_roles(F)
+    KT = kind_adt["path"]
+    vidx = {role: [v.get("discr", i) for i, v in enumerate(kind_adt["variants"]) if v["name"] == vname][0] for role, vname in roles.items()}
     # the branch on the looked-up kind
     sw = None
     for b in range(m.nblocks()):
         t = m.term(b)
-        if t["k"] == "switch" and not m.blocks[b].get("dead") and "DefaultKind" in (_discr_ty(m, b) or ""):
+        if t["k"] == "switch" and not m.blocks[b].get("dead") and KT in (_discr_ty(m, b) or ""):
             sw = b
     if sw is None:
-        raise AnchorLost("branch on DefaultKind in emulate_default_handler")
+        raise AnchorLost("branch on the default-disposition enum in emulate_default_handler")
     tgt = {v: b for v, b in m.term(sw)["vals"]}
 
     def region(variant):
@@ -142,6 +175,8 @@ def rule_b(ctx):
         never = not (cfg.reachable_after(m, rb, unwind=False) & set(m.exits()))
         ctx.check(never, rid, "term:never-returns", "after the restore no path returns (abort is the fallback on every path)", restore[0][1]["sp"], None)
         g, why = result_gates(F, m, rb, xb)
+        if not g and restore[0][2].local and restore[0][2].body is not None and restore[0][2].local_ty(0) == "bool":
+            g, why = _bool_gate(F, m, rb, xb, restore[0][2])
         if not g and restore[0][2].symbol == "sigaction":
             # direct system call: success is `== 0`
             g = any(ce[0] == "binop" and ce[1] in ("Eq", "Ne") and mentions(ce, lambda x: x[0] == "call" and x[1] == rb) and
@@ -171,6 +206,43 @@ def rule_b(ctx):
     ctx.check(not bad, rid, "unknown:error-first", "every effect is dominated by the successful table lookup (or by signal == SIGSTOP/SIGKILL)", m.span, bad)
     errs = [i for i in Cone(F, [m]).members if i.defp == "std::io::error::Error::from_raw_os_error"]
     ctx.check(bool(errs), rid, "unknown:einval", "the unknown-signal error is an OS error code (EINVAL), built without allocation", m.span, None)
+
+
+def _bool_gate(F, m, rb, xb, callee):
+    """the restoring helper answers with a bool: which answer means success is read off its own normal form (`sigaction(..) == 0`), and the
+    re-raise must be unreachable from the other answer"""
+    from .nf import NF
+    from ..conds import switch_edges
+    c = NF(F, callee)
+    fl = flow(c)
+    pol = set()
+    for rbk in c.exits():
+        for e in fl.place({"l": 0, "p": []}, (rbk, len(c.stmts(rbk)))):
+            e = deep_strip(e)
+            if e[0] == "binop" and e[1] in ("Eq", "Ne") and fold(e[3]) == 0 and deep_strip(e[2])[0] == "call" and \
+                    (c.term(deep_strip(e[2])[1]).get("def") or "").endswith("sigaction"):
+                pol.add(e[1] == "Eq")
+            else:
+                pol.add(None)
+    if len(pol) != 1 or None in pol:
+        return False, "cannot tell which answer of %s means success" % callee.name.split("::")[-1]
+    success_true = pol.pop()
+    found = False
+    for (b, tgt, lab, exprs, t) in switch_edges(m):
+        for e in exprs:
+            e = deep_strip(e)
+            neg = False
+            if e[0] == "unop" and e[1] == "Not":
+                neg = True; e = deep_strip(e[2])
+            if not (e[0] == "call" and e[1] == rb):
+                continue
+            found = True
+            val = int(lab[3:]) if lab.startswith("sw:") else None
+            is_true = (val is not None and val != 0) or (val is None and [v for v, _ in t["vals"]] == [0])
+            answer = (not is_true) if neg else is_true
+            if answer != success_true and (xb == tgt or xb in cfg.reachable(m, tgt, unwind=False)):
+                return False, "the re-raise is reachable although the restore reported failure"
+    return (found, "re-raise only after the restore reported success" if found else "the restore's answer is never examined")
 
 
 def _early_known(m, b):
@@ -346,9 +418,10 @@ def rule_d(ctx):
         if what == "name":
             vals = [e for rb in m.exits() for e in fl.place({"l": 0, "p": []}, (rb, len(m.stmts(rb))))]
         else:
-            sw = [b for b in range(m.nblocks()) if m.term(b)["k"] == "switch" and not m.blocks[b].get("dead") and "DefaultKind" in (_discr_ty(m, b) or "")]
+            KT = kind_roles(F)[0]["path"]
+            sw = [b for b in range(m.nblocks()) if m.term(b)["k"] == "switch" and not m.blocks[b].get("dead") and KT in (_discr_ty(m, b) or "")]
             if not sw:
-                raise AnchorLost("branch on DefaultKind")
+                raise AnchorLost("branch on the default-disposition enum")
             vals = [e for b in sw for e in fl.term_operand(b, m.term(b)["d"])]
         d = deps(m, vals)
         consts = {(x[2] or "") for x in d if x[0] == "const" and x[2]}
